@@ -60,6 +60,20 @@ def families():
     f["anchored-C4-lit"] = f["C4"] + [[B(2), Q, {"k": "num", "v": 1}]]
     f["twins"] = E([(1, 2), (1, 3)]) + [[B(2), Q, {"k": "str", "v": "x"}], [B(3), Q, {"k": "str", "v": "x"}]]
     f["twins-diff"] = E([(1, 2), (1, 3)]) + [[B(2), Q, {"k": "str", "v": "x"}], [B(3), Q, {"k": "str", "v": "y"}]]
+    # partially symmetric structures: colour refinement leaves non-trivial cells and the orbit pruning of the search decides
+    und = lambda es: es + [(b, a) for a, b in es]
+    c4, hexa = [(1, 2), (2, 3), (3, 4), (4, 1)], [(1, 2), (2, 3), (3, 4), (4, 5), (5, 6), (6, 1)]
+    mark = lambda i: [B(i), Q, {"k": "iri", "v": "x"}]
+    f["usquare-pend-adj"] = E(und(c4) + [(1, 5), (2, 6)])
+    f["usquare-pend-opp"] = E(und(c4) + [(1, 5), (3, 6)])
+    f["dsquare-pend-adj"] = E(c4 + [(1, 5), (2, 6)])
+    f["dsquare-pend-opp"] = E(c4 + [(1, 5), (3, 6)])
+    f["uhex-marks-adj"] = E(und(hexa)) + [mark(1), mark(2)]
+    f["uhex-marks-dist2"] = E(und(hexa)) + [mark(1), mark(3)]
+    f["uhex-marks-opp"] = E(und(hexa)) + [mark(1), mark(4)]
+    f["uhex-diagonal"] = E(und(hexa + [(1, 4)]))
+    f["uC6"] = E(und(hexa))
+    f["uC4"] = E(und(c4))
     return f
 
 
@@ -115,6 +129,17 @@ def run(out, tier, seed):
             evs.append({"op": "canon", "g": g, "h": v, "og": gi})
         for e in evs:
             jobs.append({"cfg": {}, "events": [e]})
+    # whether the search takes a wrong short cut depends on labels and insertion order: many relabelled copies of the hard families
+    # (the canonicaliser orders colours by hashes of the terms, so the IRIs are varied too)
+    prefixes = ["", "http://example.org/", "urn:x:", "http://a.example/ns#", "u:", "http://b.example/v/", "tag:t,2020:", "http://www.example.com/onto#"]
+
+    def renamed(g, pre):
+        return [[dict(x, v=pre + x["v"]) if x["k"] == "iri" else x for x in t] for t in g]
+    for fi, (name, g0) in enumerate(fam.items()):
+        for c in range(16 if quick else 80):
+            g = renamed(g0, prefixes[(c + seed) % len(prefixes)])
+            jobs.append({"cfg": {}, "events": [{"op": "iso", "g": g, "h": g, "og": 100 + c, "oh": 200 + c * 7 + fi, "relabel": perm_map(6, rng)}]})
+            jobs.append({"cfg": {}, "events": [{"op": "canon", "g": g, "h": g, "og": 300 + c, "oh": 400 + c * 5 + fi, "relabel": perm_map(6, rng)}]})
     names = list(fam)
     for a, b in itertools.combinations(names, 2):
         if len(fam[a]) == len(fam[b]):
